@@ -331,7 +331,7 @@ impl<T: BFieldCodec, const N: usize> BFieldCodec for [T; N] {
     type Error = BFieldCodecError;
 
     fn decode(sequence: &[BFieldElement]) -> Result<Box<Self>, Self::Error> {
-        if N > 0 && sequence.is_empty() {
+        if N > 0 && sequence.is_empty() && T::static_length() != Some(0) {
             return Err(Self::Error::EmptySequence);
         }
 
@@ -471,7 +471,8 @@ fn bfield_codec_decode_list_with_statically_sized_items<T: BFieldCodec>(
         return Err(BFieldCodecError::SequenceTooLong);
     }
 
-    for raw_item in sequence.chunks_exact(item_length) {
+    for i in 0..num_items {
+        let raw_item = &sequence[i * item_length..(i + 1) * item_length];
         let item = *T::decode(raw_item).map_err(|e| e.into())?;
         vec.push(item);
     }
